@@ -7,6 +7,7 @@ RULE = ("Option maps computed by TLC: 44 host strings (IPv4/IPv6 in every compre
         "0, 65535, 65536, 2^63, hex, exponent, whitespace, empty) x host, keys that are prefixes/extensions/case variants of host, port, s, i, "
         "caps, v, s/i values of length 0,1,15,16,17,31,32,33,64,255, seeded combinations; each through NewRouterAddress and through "
         "ReadRouterAddress of TLC's encoding. Non-trivial = a C17 predicate's antecedent held.")
+RULE += (" 39-45-byte literals, IPv6 with embedded dotted quads, introducer options ihN/iexpN/itagN; an IPv4-mapped literal's version must be the family of the address Host() returned.")
 ASSUME = [common.TRUSTED, "IP-literal grammar = dotted quad / RFC 4291 section 2.2 text forms (Net.tla), permissive about leading zeros; judged in the direction 'accepted => literal'",
           "decimal port = [+-]?[0-9]+ with value 1..65535; canonical form = shortest decimal"]
 META = {
